@@ -100,7 +100,7 @@ let fb_words maxlen =
     done
   done;
   List.rev !out
-let scripts = ["L"; "N0 L"; "N1 F L"; "F N1 B L"; "B N0 L"; "N2 L"; "N5 L F"; "F B L"; "B B N1 L"]
+let scripts = ["L"; "N0 L"; "N1 F L"; "F N1 B L"; "B N0 L"; "N2 L"; "N5 L F"; "F B L"; "B B N1 L"; "R0 L"; "R1 B L"; "F R1 F L"; "R2 L F"; "N1 R1 L"; "R5 L B"]
 
 (* a generic iterator: state + next / next_back / nth / len, results as ints (-1 = None) *)
 type 's iter = {
@@ -140,6 +140,11 @@ let run_deque (it : 's iter) (b : Buffer.t) =
           | 'N' ->
             let n = int_of_string (String.sub tok 1 (String.length tok - 1)) in
             let (x, s') = it.nth n !s in s := s'; Buffer.add_string b (string_of_int x)
+          | 'R' ->
+            (* DoubleEndedIterator::nth_back (not overridden by the crate): n + 1 calls of next_back, stopping at None *)
+            let n = int_of_string (String.sub tok 1 (String.length tok - 1)) in
+            let rec go n st = let (x, st') = it.next_back st in if x < 0 then (x, st') else if n = 0 then (x, st') else go (n - 1) st' in
+            let (x, s') = go n !s in s := s'; Buffer.add_string b (string_of_int x)
           | 'L' -> let n = it.len !s in Buffer.add_string b (Printf.sprintf "%d/%d" n n)
           | _ -> assert false)
         (String.split_on_char ' ' sc))
@@ -318,6 +323,7 @@ let dump_doc (idx : Stdlib.String.t) (flags : Stdlib.String.t) (text : n list) (
     done;
     push_name None (bytes_of_string "absent");
     push_name (Some ns_xml_uri) (bytes_of_string "lang");
+    push_name None [];
     for id = 0 to n - 1 do
       List.iter (fun (v : namespace) ->
           let p = ns_name_bytes text v in
@@ -406,7 +412,16 @@ let dump_doc (idx : Stdlib.String.t) (flags : Stdlib.String.t) (text : n list) (
       sub := !sub + int_of_n (sit_len (get (descendants d (n_of_int id))))
     done;
     let lasts = (if n > 0 then 1 else 0) + (if n > 1 then 1 else 0) + (if n > 2 then 1 else 0) in
-    pr "%s OI %d\n" idx (!cnt + 4 * n + !sub + lasts)
+    (* plus, for each of the first 40 nodes with t nodes in its subtree and k = 0..2: nth_back(k), then rev().skip(k).take(2) of a
+       fresh iterator, then one more next_back() of the first one *)
+    let rb = ref 0 in
+    for id = 0 to (min n 40) - 1 do
+      let t = int_of_n (sit_len (get (descendants d (n_of_int id)))) in
+      for k = 0 to 2 do
+        rb := !rb + (if t > k then 1 else 0) + (min 2 (max 0 (t - k))) + (if t > k + 1 then 1 else 0)
+      done
+    done;
+    pr "%s OI %d\n" idx (!cnt + 4 * n + !sub + lasts + !rb)
   end;
   if has 'g' then begin
     let (lines, _maxh) = get (debug_document d) in
